@@ -358,3 +358,35 @@ def sym_zero_rowsum(r, n, positive=0.0, weights=None, extra=0.2):
         rows[i][i] = -sum(rows[i].values())
         if rows[i][i] == 0: rows[i][i] = F(0)
     return [sorted(rw.items()) for rw in rows]
+
+
+def spd_block(r, b, nb, incomplete=True, kron=False):
+    """symmetric, strictly diagonally dominant (hence SPD) matrix with b x b block structure on a
+    random connected graph of nb nodes; off-diagonal blocks are structurally incomplete when
+    `incomplete` (entries omitted, symmetric pattern); kron: A (x) I_b style (scaled identities).
+    Returns sorted rows of the (nb*b) x (nb*b) scalar matrix."""
+    n = nb * b
+    rows = [dict() for _ in range(n)]
+    edges = set()
+    for I in range(1, nb): edges.add((r.randrange(I), I))
+    for _ in range(r.randint(0, nb)):
+        I, J = r.randrange(nb), r.randrange(nb)
+        if I != J: edges.add((min(I, J), max(I, J)))
+    for (I, J) in sorted(edges):
+        for i in range(b):
+            for j in range(b):
+                if kron and i != j: continue
+                if not kron and incomplete and r.random() < 0.45: continue
+                w = -F(r.choice([1, 1, 2, 3]), r.choice([1, 2, 4])) if r.random() < 0.8 else F(1, r.choice([2, 4]))
+                rows[I * b + i][J * b + j] = w
+                rows[J * b + j][I * b + i] = w
+    for I in range(nb):   # diagonal block: symmetric coupling between the unknowns of a node
+        for i in range(b):
+            for j in range(i + 1, b):
+                if kron: continue
+                if incomplete and r.random() < 0.4: continue
+                w = F(r.choice([-1, 1, -2]), r.choice([1, 2, 4]))
+                rows[I * b + i][I * b + j] = w; rows[I * b + j][I * b + i] = w
+    for i in range(n):
+        rows[i][i] = sum(abs(v) for c, v in rows[i].items() if c != i) + F(r.choice([1, 2, 3]), r.choice([1, 2]))
+    return [sorted(rw.items()) for rw in rows]
